@@ -32,6 +32,11 @@ CAUGHT = {
     "C12-5": {"C12": "violation", "C13": "violation"}, "C13-5": {"C13": "violation"}, "C14-5": {"C14": "violation"},
     "C15-5": {"C15": "violation"}, "C16-5": {"C16": "violation"}, "C17-5": {"C17": "violation"}, "C18-5": {"C18": "violation"},
     "C19-5": {"C19": "violation"}, "C20-5": {"C20": "violation"},
+    "C01-6": {"C01": "violation"}, "C02-6": {"C02": "violation"}, "C03-6": {"C03": "violation"}, "C04-6": {"C04": "violation"},
+    "C05-6": {"C05": "violation"}, "C06-6": {"C06": "violation"}, "C07-6": {"C07": "violation"}, "C08-6": {"C08": "violation"},
+    "C09-6": {"C09": "violation"}, "C10-6": {"C10": "violation"}, "C11-6": {"C11": "violation"}, "C12-6": {"C12": "violation"},
+    "C13-6": {"C13": "violation"}, "C14-6": {"C14": "violation"}, "C15-6": {"C15": "violation"}, "C16-6": {"C16": "violation"},
+    "C17-6": {"C17": "violation"}, "C18-6": {"C18": "violation"}, "C19-6": {"C19": "violation"}, "C20-6": {"C20": "violation"},
 }
 for d in sorted(os.listdir(root)):
     p = os.path.join(root, d)
